@@ -1,20 +1,364 @@
 package symgo
 
-// Race monitor (clock-free happens-before knowledge sets). Placeholder: filled in later.
-type raceState struct{}
+import (
+	"fmt"
+	"sort"
+)
 
-func newRaceState() *raceState                         { return &raceState{} }
-func (r *raceState) clone() *raceState                 { return r }
-func (r *raceState) hash() (uint64, uint64)            { return 0, 0 }
-func (r *raceState) onGo(parent, child *G)             {}
-func (r *raceState) onRendezvous(a, b *G)              {}
-func (r *raceState) onSend(g *G, ch ObjID, c *ChanObj) {}
-func (r *raceState) onRecv(g *G, ch ObjID, c *ChanObj) {}
-func (r *raceState) onRecvClosed(g *G, ch ObjID)       {}
-func (r *raceState) onClose(g *G, ch ObjID)            {}
-func (r *raceState) onAcquire(g *G, k ObjKey)          {}
-func (r *raceState) onRelease(g *G, k ObjKey)          {}
-func (r *raceState) onReleaseRead(g *G, k ObjKey)      {}
-func (r *raceState) onBarrier(st *State, g *G)         {}
+// Race monitor (DESIGN 3.5): clock-free happens-before tracking.
+//
+// Every plain load/store executed by repository (non-overlay) code is recorded on the memory
+// location it touches (heap object + access path; a map is one location). Only the *live*
+// records of a location are kept: the last write and the reads since. Happens-before is
+// tracked without clock values so that it can be part of the cached state: every goroutine and
+// every synchronisation object carries the set of live records it *knows* (release: object's
+// set ∪= goroutine's; acquire: goroutine's set ∪= object's); an access races with a conflicting
+// live record of another goroutine that the accessing goroutine does not know.
+// Edges: go, channel send→receive (per message), receive→(k+C)-th send, rendezvous (both ways),
+// close→receive-of-closed, Unlock→Lock, RUnlock→Lock, Unlock→RLock, atomic store/rmw→atomic
+// load/rmw, Once.Do, WaitGroup Done→Wait, harness atomic sections on their declared objects.
 
-func (e *Engine) raceAccess(st *State, g *G, fr *Frame, p Ptr, write bool) {}
+type recID uint64
+
+type accessRec struct {
+	id    recID
+	path  []int32
+	write bool
+	g     uint32
+	pos   string
+	fn    string
+}
+
+type kset []recID // sorted, immutable
+
+func (a kset) has(x recID) bool {
+	i := sort.Search(len(a), func(i int) bool { return a[i] >= x })
+	return i < len(a) && a[i] == x
+}
+
+func (a kset) union(b kset) kset {
+	if len(b) == 0 {
+		return a
+	}
+	if len(a) == 0 {
+		return b
+	}
+	out := make(kset, 0, len(a)+len(b))
+	i, j := 0, 0
+	for i < len(a) && j < len(b) {
+		switch {
+		case a[i] == b[j]:
+			out = append(out, a[i])
+			i++
+			j++
+		case a[i] < b[j]:
+			out = append(out, a[i])
+			i++
+		default:
+			out = append(out, b[j])
+			j++
+		}
+	}
+	out = append(out, a[i:]...)
+	out = append(out, b[j:]...)
+	return out
+}
+
+func (a kset) add(x recID) kset {
+	if a.has(x) {
+		return a
+	}
+	return a.union(kset{x})
+}
+
+func (a kset) without(dead map[recID]bool) kset {
+	n := 0
+	for _, x := range a {
+		if dead[x] {
+			n++
+		}
+	}
+	if n == 0 {
+		return a
+	}
+	out := make(kset, 0, len(a)-n)
+	for _, x := range a {
+		if !dead[x] {
+			out = append(out, x)
+		}
+	}
+	return out
+}
+
+type chanK struct {
+	buf   []kset // knowledge travelling with each buffered message
+	recvK []kset // knowledge of receives not yet matched by the (k+C)-th send
+	close kset
+	sends int // completed buffered sends, saturating at cap+1
+}
+
+type raceState struct {
+	live map[ObjID][]accessRec
+	kg   map[uint32]kset // goroutine knowledge (own records are implicit)
+	ko   map[ObjKey]kset // sync object knowledge (writers / general)
+	kr   map[ObjKey]kset // RWMutex: knowledge released by readers
+	kc   map[ObjID]*chanK
+}
+
+func newRaceState() *raceState {
+	return &raceState{live: map[ObjID][]accessRec{}, kg: map[uint32]kset{}, ko: map[ObjKey]kset{}, kr: map[ObjKey]kset{}, kc: map[ObjID]*chanK{}}
+}
+
+func (r *raceState) clone() *raceState {
+	n := &raceState{live: make(map[ObjID][]accessRec, len(r.live)), kg: make(map[uint32]kset, len(r.kg)),
+		ko: make(map[ObjKey]kset, len(r.ko)), kr: make(map[ObjKey]kset, len(r.kr)), kc: make(map[ObjID]*chanK, len(r.kc))}
+	for k, v := range r.live {
+		n.live[k] = v
+	}
+	for k, v := range r.kg {
+		n.kg[k] = v
+	}
+	for k, v := range r.ko {
+		n.ko[k] = v
+	}
+	for k, v := range r.kr {
+		n.kr[k] = v
+	}
+	for k, v := range r.kc {
+		c := *v
+		n.kc[k] = &c
+	}
+	return n
+}
+
+func (r *raceState) hash() (uint64, uint64) {
+	var a, b uint64
+	for o, recs := range r.live {
+		for _, x := range recs {
+			a += mix(uint64(o.G)<<32|uint64(o.N), uint64(x.id))
+		}
+	}
+	hs := func(k kset) uint64 {
+		var h uint64 = 11
+		for _, x := range k {
+			h = mix(h, uint64(x))
+		}
+		return h
+	}
+	for g, k := range r.kg {
+		b += mix(uint64(g), hs(k))
+	}
+	for o, k := range r.ko {
+		b += mix(mix(uint64(o.Obj.G)<<32|uint64(o.Obj.N), o.P), hs(k))
+	}
+	for o, k := range r.kr {
+		b += mix(mix(uint64(o.Obj.G)<<32|uint64(o.Obj.N), o.P)+1, hs(k))
+	}
+	for o, c := range r.kc {
+		h := mix(hs(c.close), uint64(c.sends))
+		for _, k := range c.buf {
+			h = mix(h, hs(k))
+		}
+		for _, k := range c.recvK {
+			h = mix(h, hs(k)+3)
+		}
+		a += mix(uint64(o.G)<<32|uint64(o.N)+7, h)
+	}
+	return a, b
+}
+
+// own returns the live records made by goroutine g.
+func (r *raceState) own(g uint32) kset {
+	var out kset
+	for _, recs := range r.live {
+		for _, x := range recs {
+			if x.g == g {
+				out = append(out, x.id)
+			}
+		}
+	}
+	sort.Slice(out, func(i, j int) bool { return out[i] < out[j] })
+	return out
+}
+
+// view is what goroutine g can pass on: its knowledge plus its own records.
+func (r *raceState) view(g *G) kset { return r.kg[g.ID].union(r.own(g.ID)) }
+
+func (r *raceState) acquireSet(g *G, k kset) {
+	if len(k) > 0 {
+		r.kg[g.ID] = r.kg[g.ID].union(k)
+	}
+}
+
+func (r *raceState) onGo(parent, child *G) { r.kg[child.ID] = r.view(parent) }
+
+func (r *raceState) onRendezvous(a, b *G) {
+	va, vb := r.view(a), r.view(b)
+	r.acquireSet(a, vb)
+	r.acquireSet(b, va)
+}
+
+func (r *raceState) ck(ch ObjID) *chanK {
+	c := r.kc[ch]
+	if c == nil {
+		c = &chanK{}
+		r.kc[ch] = c
+	}
+	return c
+}
+
+func (r *raceState) onSend(g *G, ch ObjID, c *ChanObj) {
+	k := r.ck(ch)
+	// the (n)-th send (n > C) completes after the (n-C)-th receive
+	if k.sends >= c.Cap && len(k.recvK) > 0 {
+		r.acquireSet(g, k.recvK[0])
+		k.recvK = append([]kset{}, k.recvK[1:]...)
+	}
+	if k.sends <= c.Cap {
+		k.sends++
+	}
+	k.buf = append(append([]kset{}, k.buf...), r.view(g))
+}
+
+func (r *raceState) onRecv(g *G, ch ObjID, c *ChanObj) {
+	k := r.ck(ch)
+	if len(k.buf) > 0 {
+		r.acquireSet(g, k.buf[0])
+		k.buf = append([]kset{}, k.buf[1:]...)
+	}
+	k.recvK = append(append([]kset{}, k.recvK...), r.view(g))
+}
+
+func (r *raceState) onRecvClosed(g *G, ch ObjID) { r.acquireSet(g, r.ck(ch).close) }
+func (r *raceState) onClose(g *G, ch ObjID) {
+	k := r.ck(ch)
+	k.close = k.close.union(r.view(g))
+}
+
+func (r *raceState) onAcquire(g *G, k ObjKey) {
+	r.acquireSet(g, r.ko[k])
+	r.acquireSet(g, r.kr[k])
+}
+
+// onAcquireRead: RLock sees what writers released, not what other readers released.
+func (r *raceState) onAcquireRead(g *G, k ObjKey) { r.acquireSet(g, r.ko[k]) }
+
+func (r *raceState) onRelease(g *G, k ObjKey)     { r.ko[k] = r.ko[k].union(r.view(g)) }
+func (r *raceState) onReleaseRead(g *G, k ObjKey) { r.kr[k] = r.kr[k].union(r.view(g)) }
+
+// onBarrier: vQuiescent — everything that could happen has happened; the harness goroutine
+// observes the world like after joining every other goroutine.
+func (r *raceState) onBarrier(st *State, g *G) {
+	k := r.kg[g.ID]
+	for _, h := range st.gs {
+		if h != g {
+			k = k.union(r.view(h))
+		}
+	}
+	for _, o := range r.ko {
+		k = k.union(o)
+	}
+	for _, o := range r.kr {
+		k = k.union(o)
+	}
+	r.kg[g.ID] = k
+}
+
+func pathConflict(a, b []int32) bool {
+	n := len(a)
+	if len(b) < n {
+		n = len(b)
+	}
+	for i := 0; i < n; i++ {
+		if a[i] != b[i] {
+			return false
+		}
+	}
+	return true // one is a prefix of the other (or equal)
+}
+
+// access records a plain access and reports races.
+func (e *Engine) raceAccess(st *State, g *G, fr *Frame, p Ptr, write bool) {
+	r := st.race
+	if r == nil || fr == nil || !fr.Info.repo {
+		return
+	}
+	if p.Obj.G == 0 {
+		// package-level variables are initialised before main and read-only in this code base,
+		// except where written by the library: monitored as well
+	}
+	pos := e.posStr(e.instrPos(fr))
+	recs := r.live[p.Obj]
+	know := r.kg[g.ID]
+	var dead map[recID]bool
+	var keep []accessRec
+	for _, x := range recs {
+		if !pathConflict(x.path, p.Path) {
+			keep = append(keep, x)
+			continue
+		}
+		if x.g != g.ID && (x.write || write) && !know.has(x.id) {
+			e.reportRace(st, g, fr, p, write, pos, x)
+		}
+		if write || (x.g == g.ID && !x.write) {
+			// a write supersedes every conflicting record; a read supersedes the goroutine's
+			// own earlier read of the location
+			if dead == nil {
+				dead = map[recID]bool{}
+			}
+			dead[x.id] = true
+			continue
+		}
+		keep = append(keep, x)
+	}
+	h := mix(mix(uint64(p.Obj.G)<<32|uint64(p.Obj.N), uint64(g.ID)), hashStr(pos))
+	for _, i := range p.Path {
+		h = mix(h, uint64(i)+1)
+	}
+	if write {
+		h = mix(h, 0x77)
+	}
+	rec := accessRec{id: recID(h), path: p.Path, write: write, g: g.ID, pos: pos, fn: fr.Fn.String()}
+	keep = append(keep, rec)
+	r.live[p.Obj] = keep
+	if len(dead) > 0 {
+		delete(dead, rec.id)
+		for k, v := range r.kg {
+			r.kg[k] = v.without(dead)
+		}
+		for k, v := range r.ko {
+			r.ko[k] = v.without(dead)
+		}
+		for k, v := range r.kr {
+			r.kr[k] = v.without(dead)
+		}
+		for _, c := range r.kc {
+			c.close = c.close.without(dead)
+			for i := range c.buf {
+				c.buf[i] = c.buf[i].without(dead)
+			}
+			for i := range c.recvK {
+				c.recvK[i] = c.recvK[i].without(dead)
+			}
+		}
+	}
+}
+
+func (e *Engine) reportRace(st *State, g *G, fr *Frame, p Ptr, write bool, pos string, prev accessRec) {
+	kind := func(w bool) string {
+		if w {
+			return "write"
+		}
+		return "read"
+	}
+	fn := fr.Fn.String()
+	a := fmt.Sprintf("%s by g%d in %s at %s", kind(write), g.ID, fn, pos)
+	b := fmt.Sprintf("%s by g%d in %s at %s", kind(prev.write), prev.g, prev.fn, prev.pos)
+	// canonical id: the two source positions, ordered
+	x, y := pos, prev.pos
+	if y < x {
+		x, y = y, x
+	}
+	f := &Failure{Kind: "race", ID: "race " + x + " / " + y, Pos: pos, Detail: a + " conflicts with " + b + " (no happens-before order)", Stack: e.stackOf(g)}
+	e.recordFailure(st, f)
+}
